@@ -1,5 +1,6 @@
 import SgModel.Lemmas.Cy
 import SgModel.Lemmas.CyAnchor
+import SgModel.Lemmas.CyIso
 /-!
 # C01 — read queries return exactly the rows openCypher semantics define
 
@@ -203,6 +204,45 @@ theorem C01_model_refines_spec (descs : List Bool) (skip limit : Option Nat) (P 
           hperm.countP_eq _
     _ = List.countP (fun pr => keysEqv descs c pr.key && pr.vals == r) P := rfl
 
+theorem canonRow_noop (cc : List Bool) (vs : List Val) (h : cc.all (!·) = true) :
+    canonRow cc vs = vs := by
+  induction cc generalizing vs with
+  | nil => cases vs <;> simp [canonRow]
+  | cons c cs ih =>
+    simp only [List.all_cons, Bool.and_eq_true, Bool.not_eq_true'] at h
+    cases vs with
+    | nil => simp [canonRow]
+    | cons v vs' =>
+      have hc : c = false := h.1
+      subst hc
+      cases v <;> simp [canonRow, ih vs' h.2]
+
+/-- For every graph and every query without a `collect` column: the table the model
+computes satisfies the specification the harness evaluates on the engine's table. -/
+theorem C01_model_refines_spec_query (g : Graph) (de : Bool) (q : Query) (t : Table)
+    (hc : q.ret.collectCols.all (!·) = true) (h : evalQuery g de q = .ok t) :
+    specQuery g de q t = .ok := by
+  unfold evalQuery at h
+  unfold specQuery
+  cases hr : evalClauses g de q.clauses [[]] with
+  | error e => simp [hr, bind, Except.bind] at h
+  | ok rows =>
+    simp only [hr, bind, Except.bind, projOut] at h
+    cases hP : rowsIn g q.ret rows with
+    | error e => simp [hP] at h
+    | ok P =>
+      simp only [hP, pure, Except.pure] at h
+      injection h with h
+      subst h
+      simp only
+      have hid : ∀ vs, canonRow q.ret.collectCols vs = vs := fun vs => canonRow_noop _ vs hc
+      have heta : List.map (fun pr : PRow => ({ key := pr.key, vals := pr.vals } : PRow)) P = P := by
+        induction P with
+        | nil => rfl
+        | cons x xs ih => simp
+      have := C01_model_refines_spec q.ret.descs q.ret.skip q.ret.limit P
+      simp only [hP, heta, sortPRows, List.map_map, Function.comp_def, hid, bne_self_eq_false,
+        Bool.false_eq_true, if_false, this, if_true]
 /-- without SKIP/LIMIT an admissible result has exactly as many rows as the reference -/
 theorem C01_admissible_length (descs : List Bool) (P : List PRow) (out : List (List Val))
     (h : admissible descs none none P out = true) : out.length = P.length := by
@@ -231,6 +271,40 @@ theorem C01_match_anchor_independent_hop (g : Graph) (hwf : g.WF) (pa : NodePat)
 theorem C01_hop_matches_exact (g : Graph) (hwf : g.WF) (pa : NodePat) (rp : RelPat) (pb : NodePat) :
     (hopFromLeft g pa rp pb).Nodup ∧ ∀ t, t ∈ hopFromLeft g pa rp pb ↔ HopSat g pa rp pb t :=
   ⟨nodup_hopFromLeft g hwf pa rp pb, mem_hopFromLeft g hwf pa rp pb⟩
+
+/-! ## relationship isomorphism -/
+
+/-- Within one MATCH clause — across all of its comma-separated patterns, fixed- and
+variable-length steps alike — no relationship is bound twice: every match the reference
+semantics produces uses pairwise distinct relationships. -/
+theorem C01_relationship_isomorphism (g : Graph) (de : Bool) (pats : List PathPat) (row : Row) :
+    ∀ s ∈ matchPats g de pats ⟨row, []⟩, s.used.Nodup :=
+  matchPats_nodup g de pats ⟨row, []⟩ List.nodup_nil
+
+/-- the engine tracks used relationships per path: on a graph with a single relationship
+`MATCH (a)-[r1]->(b), (c)-[r2]->(d)` has no match, the engine's evaluation has one
+(known finding `comma-pattern-isomorphism`) -/
+theorem C01_counterexample_comma_isomorphism :
+    let g : Graph := ⟨[⟨0, [], []⟩, ⟨1, [], []⟩], [⟨0, 0, 1, 82, []⟩]⟩
+    let hop (a r b : Name) : PathPat :=
+      ⟨⟨some a, [], []⟩, [(⟨some r, [], .out, [], none⟩, ⟨some b, [], []⟩)]⟩
+    (matchPats g false [hop 1 2 3, hop 4 5 6] ⟨[], []⟩).length = 0
+      ∧ (matchPatsLegacy g false [hop 1 2 3, hop 4 5 6] ⟨[], []⟩).length = 1 := by decide
+
+/-- `MATCH (x) OPTIONAL MATCH (y:C)` keeps `x` with `y = null` when nothing carries `:C`;
+the engine's cartesian product returns no row (known finding `optional-match-disconnected`) -/
+theorem C01_counterexample_optional_disconnected :
+    let g : Graph := ⟨[⟨0, [65], []⟩], []⟩
+    okLength (evalMatch g false true [⟨⟨some 121, [67], []⟩, []⟩] none [(120, .node 0)]) = some 1
+      ∧ (evalMatchOptionalLegacy g false [⟨⟨some 121, [67], []⟩, []⟩] [(120, .node 0)]).length = 0 := by
+  decide
+
+/-- `… WITH count(*) AS c …` over no rows is one row `c = 0`; the engine emits none (known
+finding `with-aggregate-empty-input`) -/
+theorem C01_counterexample_with_aggregate_empty :
+    let p : Proj := ⟨false, [.agg .countStar false (.lit .null) 99], [], none, none, none⟩
+    okLength (projectRows ⟨[], []⟩ p []) = some 1
+      ∧ okLength (withAggRowsLegacy ⟨[], []⟩ p []) = some 0 := by decide
 
 /-! ## equality pushed down into an expansion -/
 
@@ -268,14 +342,16 @@ theorem C01_counterexample_order_tie :
     Atom.ordCmpLegacy (.int 1) (.flt 1 0) = .lt ∧ Atom.ordCmp (.int 1) (.flt 1 0) = .eq := by
   decide
 
-/-! ## variable-length patterns: the engine's rows are the de-duplicated end nodes -/
+/-! ## variable-length patterns
 
-/-- `varLenDistinct` (the engine: one row per distinct end node) is exactly the openCypher
-result `varLenPaths` with the end nodes de-duplicated — so the known finding
-`varlen-distinct-endpoint` is precisely "duplicates are missing", nothing else -/
+Three semantics: `stepVar g false` (openCypher: one row per path of distinct relationships),
+`stepVarDedup` (one row per distinct end node of those paths) and `stepVar g true` (the
+engine: breadth-first over nodes, one row per reachable node at its BFS depth). -/
+
+/-- `stepVarDedup` is exactly the openCypher result with the end nodes de-duplicated -/
 theorem C01_varlen_distinct_eq_dedup_endpoints (g : Graph) (rp : RelPat) (np : NodePat)
     (lo : Nat) (hi : Option Nat) (s : MState) (cur : Nat) :
-    (stepVar g true rp np lo hi s cur).map (·.2)
+    (stepVarDedup g rp np lo hi s cur).map (·.2)
       = dedupNat ((stepVar g false rp np lo hi s cur).map (·.2)) := by
   have hF := fun (l : List (Nat × List Nat)) =>
     filterMap_map_eq_filter (endStep g np s.row) (·.2) (·.1) (endOk g np s.row)
@@ -286,13 +362,26 @@ theorem C01_varlen_distinct_eq_dedup_endpoints (g : Graph) (rp : RelPat) (np : N
   rw [hF, hF, dedupNat_filter]
   simp [List.map_map, Function.comp_def]
 
-/-- the diamond: two paths to the same end node are two rows in openCypher, one in the engine -/
-example :
+/-- the diamond `0→1→3, 0→2→3` under `*1..2`: two paths end in node 3, so openCypher has 4
+rows; the engine's BFS (and the de-duplicated semantics) report node 3 once: 3 rows (known
+finding `varlen-distinct-endpoint`) -/
+theorem C01_counterexample_varlen_diamond :
     let g : Graph := ⟨[⟨0, [], []⟩, ⟨1, [], []⟩, ⟨2, [], []⟩, ⟨3, [], []⟩],
       [⟨0, 0, 1, 82, []⟩, ⟨1, 0, 2, 82, []⟩, ⟨2, 1, 3, 82, []⟩, ⟨3, 2, 3, 82, []⟩]⟩
     let rp : RelPat := ⟨none, [], .out, [], some (1, some 2)⟩
     ((stepVar g false rp ⟨none, [], []⟩ 1 (some 2) ⟨[], []⟩ 0).map (·.2)).length = 4
-      ∧ ((stepVar g true rp ⟨none, [], []⟩ 1 (some 2) ⟨[], []⟩ 0).map (·.2)).length = 3 := by
+      ∧ ((stepVar g true rp ⟨none, [], []⟩ 1 (some 2) ⟨[], []⟩ 0).map (·.2)).length = 3
+      ∧ ((stepVarDedup g rp ⟨none, [], []⟩ 1 (some 2) ⟨[], []⟩ 0).map (·.2)).length = 3 := by
+  decide
+
+/-- the BFS reports a node only at its *shortest* distance: with two parallel self-loops
+`*2..2` has two openCypher paths (and one distinct end node), the engine reports nothing -/
+theorem C01_counterexample_varlen_bfs_depth :
+    let g : Graph := ⟨[⟨0, [], []⟩], [⟨0, 0, 0, 82, []⟩, ⟨1, 0, 0, 82, []⟩]⟩
+    let rp : RelPat := ⟨none, [], .out, [], some (2, some 2)⟩
+    ((stepVar g false rp ⟨none, [], []⟩ 2 (some 2) ⟨[], []⟩ 0).map (·.2)).length = 2
+      ∧ ((stepVarDedup g rp ⟨none, [], []⟩ 2 (some 2) ⟨[], []⟩ 0).map (·.2)).length = 1
+      ∧ ((stepVar g true rp ⟨none, [], []⟩ 2 (some 2) ⟨[], []⟩ 0).map (·.2)).length = 0 := by
   decide
 
 /-! ## count by degree (`adjacency_agg_detector`) -/
@@ -327,6 +416,21 @@ theorem C01_count_by_degree (g : Graph) (hwf : g.WF) (types : List Name) (row : 
   simp only [List.contains_nil, Bool.false_or, relOk, propsOk, List.all_nil, Bool.and_true,
     relTarget, bindVar, matchNode, nodeOk, Node.hasLabels]
   by_cases h2 : (r.src == a) = true <;> simp [h2, hfind] <;> cases types <;> simp
+
+/-- the pinned tree's adjacency-count rewrite also fired for a relationship property map:
+`(a)-[:R {k: 1}]->(m)` has one match from node 0, the degree is 2 -/
+theorem C01_counterexample_adjacency_count_props :
+    let g : Graph := ⟨[⟨0, [], []⟩, ⟨1, [], []⟩], [⟨0, 0, 1, 82, [(107, .int 1)]⟩, ⟨1, 0, 0, 82, []⟩]⟩
+    (stepFrom g ⟨none, [82], .out, [(107, .int 1)], none⟩ ⟨none, [], []⟩ ⟨[], []⟩ 0).length = 1
+      ∧ outDegree g [82] 0 = 2 := by decide
+
+/-- the pinned tree's edge-count shortcut answered `MATCH (n)-[:S]->(n) RETURN count(*)`
+with the number of `:S` relationships; only self-loops match -/
+theorem C01_counterexample_edge_count_selfloop :
+    let g : Graph := ⟨[⟨0, [], []⟩, ⟨1, [], []⟩], [⟨0, 0, 1, 83, []⟩, ⟨1, 0, 0, 83, []⟩]⟩
+    (matchPath g false ⟨⟨some 110, [], []⟩,
+        [(⟨none, [83], .out, [], none⟩, ⟨some 110, [], []⟩)]⟩ ⟨[], []⟩).length = 1
+      ∧ edgeCountLegacy g [83] = 2 := by decide
 
 /-! ## `=` and arithmetic: the evaluator copies of the pinned tree -/
 
